@@ -12,7 +12,12 @@ import json
 import numpy as np
 import torch
 
-from _lib import handler, arr, num, close, patched, expect_value_error, HANDLERS
+from _lib import handler, arr, num, close as _close, patched, expect_value_error, HANDLERS
+
+
+def close(a, b, tol=1e-11):
+    """the twin programs run in float64 on small rational data: anything beyond 1e-11 relative is not float64 rounding (it exposes e.g. a detour through float32)"""
+    return _close(a, b, tol)
 
 
 def _mk_function(vmap_ok):
@@ -226,7 +231,8 @@ def r_backward(c):
         for layout in range(8):
             attempt += 1
             junk = [torch.zeros(3) for _ in range(layout * 3)]
-            prog = RealProg(spec, c["jac"], scatter=layout)
+            generic = {k_: (np.asarray(arr(v_), dtype=float) * 1.1234567891 + 0.0123456789).tolist() for k_, v_ in c["jac"].items()}
+            prog = RealProg(spec, c["jac"] if layout < 5 else generic, scatter=layout)  # last layouts: non-dyadic values (precision-only faults)
             set_old(prog, c.get("old"))
             before = grads(prog, leaf_names)
             agg = Agg([])  # the stand-in aggregator answers with a fixed function of the column index (the model's values belong to its own row order)
@@ -365,12 +371,15 @@ def r_mtl(c):
     spec = c["spec"]
     leaf_names = [l[0] for l in spec["leaves"]]
     last = None
-    for attempt in range(6):
+    # the solver's witnesses are small dyadic rationals, which every float format holds exactly; a fault that only loses PRECISION (a detour
+    # through float32) needs generic values: the second half of the attempts uses the same program with perturbed, non-dyadic local Jacobians
+    generic = {k: (np.asarray(arr(v), dtype=float) * 1.1234567891 + 0.0123456789).tolist() for k, v in c["jac"].items()}
+    for attempt in range(8):
         junk = [torch.zeros(3) for _ in range(attempt * 3)]
-        prog = RealProg(spec, c["jac"])
+        prog = RealProg(spec, c["jac"] if attempt < 4 else generic)
         set_old(prog, c.get("old"))
         before = grads(prog, leaf_names)
-        agg = Agg(c.get("v") or [])
+        agg = Agg((c.get("v") or []) if attempt < 4 else [])
         kw = {}
         if c.get("tasks_params") is not None:
             kw["tasks_params"] = [as_container([prog[n] for n in ps], c.get("container")) for ps in c["tasks_params"]]
